@@ -19,7 +19,7 @@ CLAIMS = {
          "plus injected lookup-time faults on the real backends (closed DB, corrupted and truncated records, removed directory) "
          "compared with the model and with the property's own wording.",
          "Coq proof over the store model + fault-injection correspondence", "DESIGN.md §3 C09", ""),
- "C06": ("Coq theorems C06_pem_roundtrip (for every byte string and LF/CRLF line ends the PEM path returns exactly that byte string) and C06_pem, C06_reject_unknown_version (every version byte >= 2 is rejected before anything reaches the consumer), and C06_main: for every document of the profile (any number of entries, any leaf contents, optional fields in "
+ "C06": ("Coq theorems C06_pem_roundtrip (for every byte string and LF/CRLF line ends the PEM path returns exactly that byte string) and C06_pem, C06_reject_unknown_version / C06_reject_unknown_version_document (every version byte >= 2 is rejected before anything reaches the consumer: at the header phase, and for whole documents with arbitrary bytes after the version field, both passes, every chunk schedule), and C06_main: for every document of the profile (any number of entries, any leaf contents, optional fields in "
          "every combination), every library oracle and EVERY pair of chunk schedules, the reader model run on the DER encoding emits "
          "exactly the reference events and hashes exactly the DER tbsCertList (induction over the entry list; C06_sched, C06_digest, "
          "C06_reject_critical are corollaries); the model is tied to the real reader by ~330 generated CRLs (all algorithms, widths, "
